@@ -673,8 +673,13 @@ func vpWaitCount(db *Database) (int, bool) {
 	return int(st.State.WaitCount), true
 }
 
-// quiescent: every call in flight is accounted for by the server's wait counter of this private DB
-func vpQuiesce(h *vpHist, ctl *Database, procs []*vpSeqProc, rec *vpRec) bool {
+// quiescent: every call in flight is accounted for by the server's wait counter of this private DB, AND every
+// connection of the replay has answered a STATE request issued after that was seen.  (The server answers an unlock
+// BEFORE it runs the wake pass, and the wake pass gives up the key's mutex between two grants: the counter alone can
+// match while a wake pass is still under way - seen on a heavily loaded machine as readers "still queued" next to a
+// reader that the same pass had just admitted.  A connection is served by one goroutine, so the answer to a later
+// request means the handler of the earlier one, wake pass included, has finished.)
+func vpQuiesce(h *vpHist, ctl *Database, procs []*vpSeqProc, rec *vpRec, conns []*Database) bool {
 	deadline := time.Now().Add(30 * time.Second)
 	for time.Now().Before(deadline) {
 		// first collect everything that has returned
@@ -702,6 +707,15 @@ func vpQuiesce(h *vpHist, ctl *Database, procs []*vpSeqProc, rec *vpRec) bool {
 		wc, ok := vpWaitCount(ctl)
 		if ok && wc == inflight {
 			// re-check that nothing returned meanwhile (a grant in flight is not counted as waiting any more)
+			barrier := true
+			for _, c := range conns {
+				if c.State() == nil {
+					barrier = false
+				}
+			}
+			if !barrier {
+				continue
+			}
 			time.Sleep(300 * time.Microsecond)
 			again := false
 			for _, p := range procs {
@@ -778,6 +792,10 @@ func vpRunSeq(sc *vpScenario) (*vpHist, error) {
 	}
 	defer ctlClient.Close()
 	ctl := ctlClient.SelectDB(uint8(sc.Db))
+	conns := make([]*Database, 0, len(clients))
+	for _, c := range clients {
+		conns = append(conns, c.SelectDB(uint8(sc.Db)))
+	}
 	isEvent := sc.Kind == "event_set" || sc.Kind == "event_clear"
 	procs := make([]*vpSeqProc, sc.G)
 	for i := range procs {
@@ -875,7 +893,7 @@ replay:
 		default:
 			return nil, fmt.Errorf("unknown step %q", st.Op)
 		}
-		if !vpQuiesce(h, ctl, procs, qrec) {
+		if !vpQuiesce(h, ctl, procs, qrec, conns) {
 			// overloaded machine (or a reply that never arrives): stop this replay here, the recorded prefix is still judged
 			h.diverged = fmt.Sprintf("step %d: no quiescence within 30 s after %+v", si, st)
 			break replay
